@@ -73,7 +73,9 @@ def file_state(root, rel):
     except FileNotFoundError:
         return ('absent',)
     except NotADirectoryError:
-        return ('enotdir',)
+        # a path beneath something that is a regular file now does not exist: for the statement such an entry names
+        # a missing file like any other (it must be reported as a mismatch; a raw ENOTDIR may not end a keep-going scan)
+        return ('absent',)
     except OSError as e:
         return ('other', f'errno{e.errno}')
     if stat.S_ISREG(st.st_mode):
